@@ -11,7 +11,7 @@ RULE = ("records = diff/interp/min/max/cumsum calls (1-2 axes, padded and unpadd
         "0-D, 1-D and 2-D non-dimension coordinates on any mix of positions, each with its own values and attributes; "
         "keep_coords on/off; input carrying the dataset's coordinates, none, or foreign labels; non-trivial = distinct "
         "(coordinate layout, op, shift, keep_coords, input labelling)"
-        ' Also: dask-backed inputs, legal but falsy names ("" and 0).')
+        ' Also: dask-backed inputs, legal but falsy names ("" and 0), Grids built from COMODO attributes (shift attribute as float, text or float32).')
 
 
 def gen_case(rng, cid):
@@ -27,6 +27,14 @@ def gen_case(rng, cid):
         nd = rng.choice([0, 1, 1, 2, 2])
         ds_ = [d for d, _ in rng.sample(alldims, min(nd, len(alldims)))]
         dscoords.append({"name": f"c{k}", "dims": ds_})
+    if rng.random() < 0.12:
+        # the Grid built from COMODO attributes on the dataset's own dimension coordinates (no explicit coords), with the
+        # shift attribute as a file reader may deliver it: the labels still are the dataset's, attributes included
+        for a in g["axes"]:
+            for _, d in a["pos"]:
+                if not any(x["name"] == d for x in dscoords):
+                    dscoords.append({"name": d, "dims": [d]})
+        c["via_comodo"] = rng.choice(["float", "str", "str", "np32"])
     c["dscoords"] = dscoords
     c["args"]["keep_coords"] = rng.random() < 0.5
     c["args"]["input_coords"] = rng.choice(["dataset", "dataset", "none", "foreign"])
@@ -64,6 +72,15 @@ def execute(case):
             for p, d in ax["pos"]:
                 ds[f"m_{p}"] = xr.DataArray(np.ones(sizes[d]), dims=[d])
             extra["metrics"] = {(a["axis"][0],): [f"m_{p}" for p, _ in ax["pos"]]}
+        if case.get("via_comodo"):
+            for x in g["axes"]:
+                for p, d in x["pos"]:
+                    ds[d].attrs["axis"] = x["name"]
+                    if p != "center":
+                        v = -0.5 if p in ("left", "outer") else 0.5
+                        ds[d].attrs["c_grid_axis_shift"] = {"float": v, "str": str(v), "np32": np.float32(v)}[case["via_comodo"]]
+            extra["coords"] = None
+            extra["autoparse_metadata"] = True
         grid, _ = model.make_grid(g, ds=ds, **extra)
         data = np.array(a["data"]["flat"], dtype=float).reshape(a["data"]["shape"])
         da = xr.DataArray(data, dims=a["data"]["dims"], name=None if a["name"] == "none" else (0 if a["name"] == "0" else a["name"]))
